@@ -61,7 +61,7 @@ func epochName(leaf string, epoch int) string {
 func protectedLeaf(leaf string) bool {
 	const r = rootPkg
 	// scratch ghost variables that merely record the latest external call are not protected
-	if strings.HasPrefix(leaf, "G:"+r+".ghost.io") || strings.HasPrefix(leaf, "G:"+r+".ghost.utc") || strings.HasPrefix(leaf, "G:"+r+".ghost.cf") {
+	if scratchGhost(leaf) {
 		return false
 	}
 	for _, p := range []string{"G:" + r + ".ghost.", "F:" + r + ".Entry.", "F:" + r + ".dualWriter.", "F:" + r + ".logwr.", "F:" + r + ".filewr.",
@@ -79,6 +79,13 @@ func protectedLeaf(leaf string) bool {
 		return !strings.HasPrefix(leaf, "G:"+r+".pool")
 	}
 	return false
+}
+
+// scratchGhost: ghost variables that merely record the latest call of some external function (what it was
+// given, what it answered). Any function may overwrite them; no frame condition mentions them.
+func scratchGhost(leaf string) bool {
+	const r = rootPkg
+	return strings.HasPrefix(leaf, "G:"+r+".ghost.io") || strings.HasPrefix(leaf, "G:"+r+".ghost.utc") || strings.HasPrefix(leaf, "G:"+r+".ghost.cf")
 }
 
 func (s *State) epochOf(leaf string) int {
@@ -502,6 +509,27 @@ func (c *Ctx) refBoundAxiom(name, leaf, sort, nx string) {
 	if nx == "" || leaf == "$next" {
 		return
 	}
+	if strings.HasPrefix(leaf, "M:") && strings.HasSuffix(leaf, ".has") && strings.HasPrefix(sort, "(Array Int (Array ") && rtypedMapLeaf(leaf) {
+		// modelling convention: memory that is not allocated yet holds no map entries (make() returns an
+		// empty map, and nothing else ever writes a map component at a reference it does not own)
+		ks := strings.TrimSuffix(strings.TrimPrefix(sort, "(Array Int (Array "), " Bool))")
+		func() {
+			defer func(q, b int) { c.quant, c.curTopBlock = q, b }(c.quant, c.curTopBlock)
+			c.quant = 0
+			c.curTopBlock = -1
+			c.assumeAlways(fmt.Sprintf("(forall ((r Int) (k %s)) (! (=> (>= r %s) (not (select (select %s r) k))) :pattern ((select (select %s r) k))))", ks, nx, name, name))
+		}()
+	}
+	if strings.HasPrefix(leaf, "M:") && strings.HasSuffix(leaf, ".val") && c.ptrLeaves[leaf] && strings.HasSuffix(sort, " Int))") {
+		// references stored in a map of unknown content lie below the allocation frontier
+		ks := strings.TrimSuffix(strings.TrimPrefix(sort, "(Array Int (Array "), " Int))")
+		func() {
+			defer func(q, b int) { c.quant, c.curTopBlock = q, b }(c.quant, c.curTopBlock)
+			c.quant = 0
+			c.curTopBlock = -1
+			c.assumeAlways(fmt.Sprintf("(forall ((r Int) (k %s)) (! (< (select (select %s r) k) %s) :pattern ((select (select %s r) k))))", ks, name, nx, name))
+		}()
+	}
 	inner := sort
 	dim := 0
 	for strings.HasPrefix(inner, "(Array Int ") && dim < 2 {
@@ -725,6 +753,9 @@ func (c *Ctx) wf(v *Val) *Val {
 		}
 	case *types.Pointer, *types.Map:
 		c.assumeAlways(app("<=", "0", v.Term))
+		if rtyped(v.T) {
+			c.assumeAlways(or(eq(v.Term, "0"), eq(app("rtype", v.Term), num(int64(c.prog.typeTag(v.T))))))
+		}
 	}
 	return v
 }
